@@ -2,6 +2,7 @@ import OmplModel.Proofs.Constrained
 import OmplModel.Proofs.ConstrainedField
 import OmplModel.Proofs.ConstrainedAtlas
 import OmplModel.Proofs.AtlasChart
+import OmplModel.Model.ConstrainedSI
 /-!
 # C16 — constrained spaces keep sampled, interpolated and path states on the manifold
 
@@ -1053,5 +1054,274 @@ theorem geodesicInterpolate_overshoot_witness :
     geodesicInterpolateIdx (fieldArith (1 / 1000 : Rat)) (⟨fun a b => |a - b|, fun a _ _ => a, id⟩ : Ambient Rat Rat)
       [0, 1, 2] (1 / 2) = some 2 :=
   overshoot_witness
+
+/-! ## The glue planners go through: `ConstrainedSpaceInformation.h` (Model/ConstrainedSI.lean)
+
+`getMotionStates` (both classes), `TangentBundleSpaceInformation::checkMotion(…, lastValid)` and
+`ConstrainedValidStateSampler`.  All [AF]: every geodesic oracle, every projection oracle (any answer stream, the state it
+leaves behind on failure is arbitrary), every validity / constraint oracle, every `attempts_`. -/
+
+/-- [AF] `ConstrainedSpaceInformation::getMotionStates`: every returned state is a state of the traversal, or the copy
+of `s1` pushed because the traversal failed without storing anything, or the copy of `s2` appended after a *successful*
+traversal — the latter two only when `endpoints` was asked for. -/
+theorem getMotionStates_mem (geo : Geo σ S) (s : σ) (s1 s2 : S) (e : Bool) (x : S)
+    (hx : x ∈ (getMotionStates geo s s1 s2 e).1) :
+    x ∈ (geo s s1 s2 true).2.1 ∨
+    (x = s1 ∧ e = true ∧ (geo s s1 s2 true).1 = false ∧ (geo s s1 s2 true).2.1 = []) ∨
+    (x = s2 ∧ e = true ∧ (geo s s1 s2 true).1 = true) := by
+  unfold getMotionStates at hx
+  cases e with
+  | false => simp at hx; exact Or.inl hx
+  | true =>
+    simp only [↓reduceIte] at hx
+    cases hok : (geo s s1 s2 true).1 with
+    | true =>
+      simp [hok] at hx
+      rcases hx with hx | hx
+      · exact Or.inl hx
+      · exact Or.inr (Or.inr ⟨hx, rfl, rfl⟩)
+    | false =>
+      cases hl : (geo s s1 s2 true).2.1 with
+      | nil =>
+        simp [hok, hl] at hx
+        exact Or.inr (Or.inl ⟨hx, rfl, rfl, rfl⟩)
+      | cons g0 rest =>
+        simp [hok, hl] at hx
+        exact Or.inl (by simpa using hx)
+
+/-- [AF] the same on the Projected space, down to the constraint: every state handed to the caller is `s1`, the
+caller's own `s2` (only after a successful traversal, which ended within `delta` of it), or the output of a successful
+`Constraint::project` whose residual test passed. -/
+theorem getMotionStates_projected_on_manifold (A : Arith D) (Am : Ambient S D) (Rs : Resid R D) (O : Oracle σ S R)
+    (P : GeoParams D) (fuel : Nat) (s : σ) (s1 s2 : S) (e : Bool) (x : S)
+    (hx : x ∈ (getMotionStates (projectedGeo A Am Rs O P fuel) s s1 s2 e).1) :
+    x = s1 ∨ (x = s2 ∧ e = true ∧ (discreteGeodesic A Am Rs O P fuel s s1 s2 true).ok = true) ∨
+      (Projected A Rs O P.tolSq P.maxIter x ∧ ResidualPassed A Rs O P.tolSq x) := by
+  rcases getMotionStates_mem _ s s1 s2 e x hx with h | h | h
+  · have h' : x ∈ (discreteGeodesic A Am Rs O P fuel s s1 s2 true).states := h
+    rw [states_eq_cons] at h'
+    rcases List.mem_cons.mp h' with h1 | h1
+    · exact Or.inl h1
+    · have := geodesic_states_projected A Am Rs O P fuel s s1 s2 true x h1
+      exact Or.inr (Or.inr ⟨this.1, this.2.1⟩)
+  · exact Or.inl h.1
+  · exact Or.inr (Or.inl ⟨h.1, h.2.1, h.2.2⟩)
+
+/-- [AF] the projected-prefix loop: it returns at most as many states as it was given, and every one of them is what a
+`project` call that **returned true** left behind for a state of the input list. -/
+theorem projectPrefix_spec (proj : σ → S → Option (Bool × S × σ)) :
+    ∀ (l : List S) (s : σ) (out : List S) (s' : σ), projectPrefix proj s l = some (out, s') →
+      out.length ≤ l.length ∧ ∀ x ∈ out, ∃ y ∈ l, ∃ s₁ r, proj s₁ y = some r ∧ r.1 = true ∧ r.2.1 = x := by
+  intro l
+  induction l with
+  | nil =>
+    intro s out s' h
+    simp [projectPrefix] at h
+    simp [h.1]
+  | cons y ys ih =>
+    intro s out s' h
+    unfold projectPrefix at h
+    cases hp : proj s y with
+    | none => simp [hp] at h
+    | some p =>
+      simp only [hp] at h
+      by_cases hp1 : p.1 = true
+      · simp only [hp1, ↓reduceIte] at h
+        cases hq : projectPrefix proj p.2.2 ys with
+        | none => simp [hq] at h
+        | some q =>
+          simp only [hq, Option.some.injEq, Prod.mk.injEq] at h
+          have ihq := ih p.2.2 q.1 q.2 (by rw [hq])
+          rw [← h.1]
+          refine ⟨by simp; exact ihq.1, ?_⟩
+          intro x hx
+          rcases List.mem_cons.mp hx with hx | hx
+          · exact ⟨y, by simp, s, p, hp, hp1, hx.symm⟩
+          · obtain ⟨y', hy', rest⟩ := ihq.2 x hx
+            exact ⟨y', by simp [hy'], rest⟩
+      · simp only [hp1, Bool.false_eq_true, ↓reduceIte, Option.some.injEq, Prod.mk.injEq] at h
+        rw [← h.1]
+        simp
+
+/-- [AF] `TangentBundleSpaceInformation::getMotionStates`: every state handed to the caller is the output of a
+successful `TangentBundleStateSpace::project` (chart `psi` succeeded **and** `isValid` answered true) of a state of the
+lazy traversal (or of `s1`) — the lazy, possibly off-manifold traversal states themselves never get out. -/
+theorem tbGetMotionStates_projected {U C : Type} (O : AtlasOracle σ S U C D) (geo : Geo σ S) (s : σ) (s1 s2 : S)
+    (out : List S) (s' : σ) (h : tbGetMotionStates geo (tbProject O) s s1 s2 = some (out, s')) :
+    ∀ x ∈ out, PsiOut O x ∧ AValid O x := by
+  intro x hx
+  unfold tbGetMotionStates at h
+  obtain ⟨y, _, s₁, r, hr, hr1, hrx⟩ := (projectPrefix_spec (tbProject O) _ _ _ _ h).2 x hx
+  have := tbProject_true O s₁ y r hr hr1
+  rw [hrx] at this
+  exact this
+
+/-- [AF] `TangentBundleSpaceInformation::checkMotion(s1, s2, lastValid)` never changes the validator's verdict or the
+fraction (the assignment `valid = false` in the source is dead: it is only reached when `valid` is already false). -/
+theorem tbSiCheckMotion_verdict (proj : σ → S → Option (Bool × S × σ)) (cur : Option S) (cm r : CM2 σ S D)
+    (h : tbSiCheckMotion proj cur cm = some r) : r.verdict = cm.verdict ∧ r.second = cm.second := by
+  unfold tbSiCheckMotion at h
+  by_cases hv : cm.verdict = false
+  · simp only [hv, ↓reduceIte] at h
+    split at h
+    · simp at h; rw [← h]; exact ⟨hv.symm ▸ rfl, rfl⟩
+    · split at h
+      · simp at h
+      · simp at h; rw [← h]; exact ⟨hv.symm ▸ rfl, rfl⟩
+  · simp only [hv] at h
+    simp at h; rw [← h]; exact ⟨rfl, rfl⟩
+
+/-- [AF] … and what it leaves in `*lastValid.first` after an invalid motion is whatever the projection left there —
+**whether or not that projection succeeded**.  `tbSiCheckMotion_on_manifold` is therefore only a `_partial` theorem:
+full statement wanted: "after an invalid motion `*lastValid.first` is the output of a successful projection"; what is
+missing is the case `project = false`, refuted by `tbSiCheckMotion_failed_projection_leaks` (F460). -/
+theorem tbSiCheckMotion_on_manifold_partial (proj : σ → S → Option (Bool × S × σ)) (cur : Option S)
+    (cm r : CM2 σ S D) (h : tbSiCheckMotion proj cur cm = some r) (hv : cm.verdict = false) (x : S)
+    (hx : r.first = some x) :
+    ∃ y s₁ p, proj s₁ y = some p ∧ p.2.1 = x ∧ (cm.first = some y ∨ (cm.first = none ∧ cur = some y)) := by
+  unfold tbSiCheckMotion at h
+  simp only [hv, ↓reduceIte] at h
+  cases hf : cm.first with
+  | some y =>
+    simp only [hf] at h
+    cases hp : proj cm.st y with
+    | none => simp [hp] at h
+    | some p =>
+      simp only [hp, Option.some.injEq] at h
+      rw [← h] at hx
+      simp at hx
+      exact ⟨y, cm.st, p, hp, hx, Or.inl rfl⟩
+  | none =>
+    simp only [hf] at h
+    cases hc : cur with
+    | none =>
+      simp only [hc, Option.some.injEq] at h
+      rw [← h, hf] at hx
+      simp at hx
+    | some y =>
+      simp only [hc] at h
+      cases hp : proj cm.st y with
+      | none => simp [hp] at h
+      | some p =>
+        simp only [hp, Option.some.injEq] at h
+        rw [← h] at hx
+        simp at hx
+        exact ⟨y, cm.st, p, hp, hx, Or.inr ⟨rfl, rfl⟩⟩
+
+/-- **F460, kernel-checked witness (code as it is)**: the validator reports an invalid motion with last valid state 5 at
+fraction 1/2 (`second = some 1`, any positive value); the projection of 5 fails and leaves its last iterate 99 in the
+state: the caller of `TangentBundleSpaceInformation::checkMotion` gets 99 as "last valid state", fraction unchanged.  The
+repaired function (notes/C16-fix-F460.diff) hands back `s1 = 0` with fraction 0. -/
+theorem tbSiCheckMotion_failed_projection_leaks :
+    (tbSiCheckMotion (fun (_ : Unit) (_ : Nat) => some (false, 99, ())) (some 7)
+        (⟨false, some 5, some 1, ()⟩ : CM2 Unit Nat Nat)).map (fun r => (r.verdict, r.first, r.second))
+      = some (false, some 99, some 1) ∧
+    (tbSiCheckMotionFixed (fun (_ : Unit) (_ : Nat) => some (false, 99, ())) 0 (some 7) 0
+        (⟨false, some 5, some 1, ()⟩ : CM2 Unit Nat Nat)).map (fun r => (r.verdict, r.first, r.second))
+      = some (false, some 0, some 0) := by
+  constructor <;> simp [tbSiCheckMotion, tbSiCheckMotionFixed]
+
+/-- [AF] the repaired function (notes/C16-fix-F460.diff), full statement: after an invalid motion `*lastValid.first` is
+the output of a **successful** projection, or it is `s1` and the fraction is 0. -/
+theorem tbSiCheckMotionFixed_on_manifold (proj : σ → S → Option (Bool × S × σ)) (zero : D) (cur : Option S) (s1 : S)
+    (cm r : CM2 σ S D) (h : tbSiCheckMotionFixed proj zero cur s1 cm = some r) (hv : cm.verdict = false) (x : S)
+    (hx : r.first = some x) :
+    (∃ y s₁ p, proj s₁ y = some p ∧ p.1 = true ∧ p.2.1 = x) ∨ (x = s1 ∧ r.second = some zero) := by
+  unfold tbSiCheckMotionFixed at h
+  rw [if_pos hv] at h
+  have key : ∀ y, (match proj cm.st y with
+      | none => none
+      | some p => if p.1 then some { cm with first := some p.2.1, st := p.2.2 }
+                  else some { cm with first := some s1, second := some zero, st := p.2.2 }) = some r →
+      (∃ y s₁ p, proj s₁ y = some p ∧ p.1 = true ∧ p.2.1 = x) ∨ (x = s1 ∧ r.second = some zero) := by
+    intro y hy
+    cases hp : proj cm.st y with
+    | none => simp [hp] at hy
+    | some p =>
+      simp only [hp] at hy
+      by_cases hp1 : p.1 = true
+      · simp only [hp1, ↓reduceIte, Option.some.injEq] at hy
+        rw [← hy] at hx
+        simp at hx
+        exact Or.inl ⟨y, cm.st, p, hp, hp1, hx⟩
+      · simp only [hp1, Bool.false_eq_true, ↓reduceIte, Option.some.injEq] at hy
+        rw [← hy] at hx
+        simp at hx
+        exact Or.inr ⟨hx.symm, by rw [← hy]⟩
+  cases hf : cm.first with
+  | some y => simp only [hf] at h; exact key y h
+  | none =>
+    simp only [hf] at h
+    cases hc : cur with
+    | none =>
+      simp only [hc, Option.some.injEq] at h
+      rw [← h, hf] at hx
+      simp at hx
+    | some y => simp only [hc] at h; exact key y h
+
+/-- [AF] `ConstrainedValidStateSampler::sample / sampleNear`: `true` is returned only for a state that `isValid` **and**
+`isSatisfied` (asked in this order, the second only after a yes) both answered true for — whatever the wrapped sampler
+drew (so F10 / F71 samples never get past it) — and the loop draws at most `max 1 attempts_` times. -/
+theorem validSampleLoop_spec (draw : σ → S × σ) (isValid isSat : σ → S → Bool × σ) :
+    ∀ (k : Nat) (s : σ),
+      ((validSampleLoop draw isValid isSat k s).1 = true →
+        (∃ s₁, (isValid s₁ (validSampleLoop draw isValid isSat k s).2.1).1 = true) ∧
+        (∃ s₂, (isSat s₂ (validSampleLoop draw isValid isSat k s).2.1).1 = true)) ∧
+      1 ≤ (validSampleLoop draw isValid isSat k s).2.2.1 ∧ (validSampleLoop draw isValid isSat k s).2.2.1 ≤ k + 1 := by
+  have att : ∀ s, (validAttempt draw isValid isSat s).1 = true →
+      (∃ s₁, (isValid s₁ (validAttempt draw isValid isSat s).2.1).1 = true) ∧
+      (∃ s₂, (isSat s₂ (validAttempt draw isValid isSat s).2.1).1 = true) := by
+    intro s h
+    unfold validAttempt at h ⊢
+    by_cases hv : (isValid (draw s).2 (draw s).1).1 = true
+    · simp only [hv, ↓reduceIte] at h ⊢
+      exact ⟨⟨_, hv⟩, ⟨_, h⟩⟩
+    · simp [hv] at h
+  intro k
+  induction k with
+  | zero =>
+    intro s
+    simp only [validSampleLoop]
+    exact ⟨att s, by omega, by omega⟩
+  | succ k ih =>
+    intro s
+    unfold validSampleLoop
+    by_cases ha : (validAttempt draw isValid isSat s).1 = true
+    · simp only [ha, ↓reduceIte]
+      exact ⟨fun _ => att s ha, by omega, by omega⟩
+    · simp only [ha, Bool.false_eq_true, ↓reduceIte]
+      have := ih (validAttempt draw isValid isSat s).2.2
+      exact ⟨this.1, by omega, by omega⟩
+
+theorem validSample_true_checked (draw : σ → S × σ) (isValid isSat : σ → S → Bool × σ) (attempts : Nat) (s : σ)
+    (h : (validSample draw isValid isSat attempts s).1 = true) :
+    (∃ s₁, (isValid s₁ (validSample draw isValid isSat attempts s).2.1).1 = true) ∧
+    (∃ s₂, (isSat s₂ (validSample draw isValid isSat attempts s).2.1).1 = true) ∧
+    (validSample draw isValid isSat attempts s).2.2.1 ≤ max 1 attempts := by
+  unfold validSample at h ⊢
+  have := validSampleLoop_spec draw isValid isSat (attempts - 1) s
+  refine ⟨(this.1 h).1, (this.1 h).2, ?_⟩
+  have := this.2.2
+  omega
+
+/-- non-vacuity: the first two draws are rejected (7 is invalid, 8 violates the constraint), the third (9) is accepted
+within `attempts_ = 5`; with `attempts_ = 2` the same stream gives up after two draws and leaves 8 in the state. -/
+example :
+    validSample (fun (s : Nat) => (7 + s, s + 1)) (fun s x => (x != 7, s)) (fun s x => (x != 8, s)) 5 0 = (true, 9, 3, 3) ∧
+    validSample (fun (s : Nat) => (7 + s, s + 1)) (fun s x => (x != 7, s)) (fun s x => (x != 8, s)) 2 0 = (false, 8, 2, 2) := by
+  constructor <;> simp [validSample, validSampleLoop, validAttempt]
+
+/-- non-vacuity of the `getMotionStates` theorems: a successful traversal `[0, 1, 2]` towards 3 with endpoints gives
+`[0, 1, 2, 3]`; a failed empty one gives `[s1]`; without endpoints nothing is added. -/
+example :
+    (getMotionStates (fun (_ : Unit) (_ _ : Nat) _ => (true, [0, 1, 2], ())) () 0 3 true).1 = [0, 1, 2, 3] ∧
+    (getMotionStates (fun (_ : Unit) (_ _ : Nat) _ => (false, [], ())) () 0 3 true).1 = [0] ∧
+    (getMotionStates (fun (_ : Unit) (_ _ : Nat) _ => (false, [], ())) () 0 3 false).1 = [] := by
+  simp [getMotionStates]
+
+/-- non-vacuity of `projectPrefix_spec`: the projection of the third state fails — two projected states come back -/
+example :
+    projectPrefix (fun (_ : Unit) (x : Nat) => some (x != 12, x + 100, ())) () [10, 11, 12, 13] = some ([110, 111], ()) := by
+  simp [projectPrefix]
 
 end OmplModel.Props.C16
